@@ -71,13 +71,18 @@ fn push_findings(
 ) {
     for f in findings {
         let case = cases[cases.len() - 1];
+        let history = if cases.len() == 2 {
+            format!("{} vs the same statements recorded as {}", cases[0].short(), cases[1].short())
+        } else {
+            case.short()
+        };
         out.push(violation(
             &f.law,
             case.functional,
             format!(
                 "{} | history {} | projecting {} at {} under '{}'",
                 f.detail,
-                case.short(),
+                history,
                 if about_rival { "v1" } else { "v0" },
                 crate::case::GRID[at],
                 POLICIES[pol].name
